@@ -35,6 +35,7 @@ type Opts struct {
 	ConvArg       bool   // custom functions may take the converter as first argument
 	UseUnderlying bool   // may use useUnderlyingTypeMethods
 	CompositeKeys bool   // map keys may be pointers or structs holding pointers
+	DropContext   bool   // one declared method may lack a context parameter
 	TargetsInConv bool   // target types live in the converter package, which is also the output package
 	SourcesInConv bool   // source types live in the converter package, output goes elsewhere
 	Format        string // "" (struct) | function | variable
@@ -60,7 +61,8 @@ type Builder struct {
 	n               int
 	defects         int
 	stack           []openPair
-	curTD           *spec.TypeDecl  // target type declaration whose fields are being generated
+	curTD           *spec.TypeDecl // target type declaration whose fields are being generated
+	ctxDropped      bool
 	convZeroDecided bool            // converter-level update:ignoreZeroValueField categories are fixed
 	words           map[string]bool // word type names in use
 	pairs           []namedPair
@@ -809,6 +811,12 @@ func (b *Builder) declare(name string, s, t *spec.T) (*model.Method, *spec.Metho
 	sm := &spec.Method{Name: name, Params: []spec.Param{{Name: "source", T: s}}, Results: []*spec.T{t}}
 	// context parameters at random positions
 	for _, c := range b.Ctx {
+		if b.O.DropContext && !b.ctxDropped && b.chance(35, "drop-context") {
+			// this method does not own the context: custom functions that need it are unavailable here
+			b.ctxDropped = true
+			b.label("defect:context-not-owned")
+			continue
+		}
 		pos := b.draw(len(sm.Params)+1, "ctx-pos")
 		ps := append([]spec.Param{}, sm.Params[:pos]...)
 		ps = append(ps, spec.Param{Name: c.Name, T: c.T})
@@ -1328,6 +1336,17 @@ func (b *Builder) fields(depth int, own *model.Method, sd *spec.TypeDecl) ([]spe
 					b.A.Imports = append(b.A.Imports, b.Prog.Module+"/mark")
 				}
 				b.label("method:fallible")
+			} else if b.O.ErrMismatch && !b.errMismatchDone && b.chance(40, "method-err-mismatch") {
+				// a source method that returns an error under a declared method without error result
+				b.errMismatchDone = true
+				b.label("defect:error-result-missing")
+				b.label("defect:fallible-source-method")
+				tm.Err = true
+				tm.Body = fmt.Sprintf("return %s, nil", zeroLit(k))
+				if b.coin("err-mismatch-with-ignoremissing") {
+					own.Settings.IgnoreMissing = true
+					own.FieldLines++
+				}
 			}
 			sd.Methods = append(sd.Methods, tm)
 			ft = append(ft, spec.F(mn, spec.Basic(k)))
